@@ -13,7 +13,83 @@ import (
 
 const tokenLSS = token.LSS
 
+// concrete formatting of %s / %d / %v with concrete string and integer arguments
+func fmtConcrete(ex *Exec, args []Value, fmtIdx int) (StringV, bool) {
+	if fmtIdx < 0 || fmtIdx+1 >= len(args) {
+		return StringV{}, false
+	}
+	fs, ok := args[fmtIdx].(StringV)
+	if !ok {
+		return StringV{}, false
+	}
+	format, ok := concreteString(fs)
+	if !ok {
+		return StringV{}, false
+	}
+	va, ok := args[fmtIdx+1].(SliceV)
+	if !ok {
+		return StringV{}, false
+	}
+	elems := ex.sliceElems(va)
+	var out []byte
+	k := 0
+	for i := 0; i < len(format); i++ {
+		c := format[i]
+		if c != '%' {
+			out = append(out, c)
+			continue
+		}
+		i++
+		if i >= len(format) {
+			return StringV{}, false
+		}
+		verb := format[i]
+		if verb == '%' {
+			out = append(out, '%')
+			continue
+		}
+		if k >= len(elems) || (verb != 's' && verb != 'd' && verb != 'v') {
+			return StringV{}, false
+		}
+		iv, ok := elems[k].(IfaceV)
+		k++
+		if !ok {
+			return StringV{}, false
+		}
+		switch x := iv.V.(type) {
+		case StringV:
+			cs, ok := concreteString(x)
+			if !ok {
+				return StringV{}, false
+			}
+			out = append(out, cs...)
+		case *Term:
+			if !x.Const || (x.Sort.K != SBV && x.Sort.K != SInt) {
+				return StringV{}, false
+			}
+			if _, isInt := intInfoOf(iv.T); !isInt {
+				return StringV{}, false
+			}
+			ii, _ := intInfoOf(iv.T)
+			if ii.signed {
+				out = append(out, x.BigS().String()...)
+			} else {
+				out = append(out, x.BigU().String()...)
+			}
+		default:
+			return StringV{}, false
+		}
+	}
+	if k != len(elems) {
+		return StringV{}, false
+	}
+	return ex.strConst(string(out)), true
+}
+
 func fmtPlaceholder(ex *Exec, args []Value, fmtIdx int) StringV {
+	if s, ok := fmtConcrete(ex, args, fmtIdx); ok {
+		return s
+	}
 	if fmtIdx >= 0 && fmtIdx < len(args) {
 		if s, ok := args[fmtIdx].(StringV); ok {
 			if cs, ok := concreteString(s); ok {
